@@ -339,6 +339,12 @@ struct TCase {
     /// --dir only: further guard files beside the primary one: (relative path without extension,
     /// kind), kind in good | mismatch | broken-rules | malformed-spec | no-tests
     extra: Vec<(String, String)>,
+    /// further test files for the primary rules file: (file stem, good | mismatch); with the
+    /// single-file layout the tests directory is then given to -t
+    more: Vec<(String, String)>,
+    /// 0 = default walk, 1 = -a, 2 = -m (modification times in the order of `more`, primary last),
+    /// 3 = -m (primary first)
+    walk: usize,
 }
 
 const EXTRA_RULES: &str = "rule other {\n  a exists\n}\n";
@@ -401,7 +407,18 @@ fn gen_tcase(u: &mut Choices) -> TCase {
             extra.push((names[(start + i) % names.len()].to_string(), kind.to_string()));
         }
     }
-    TCase { rules, rules_broken, spec, spec_kind, mismatch, dir_layout, fmt: *u.pick(&[Fmt::Single, Fmt::Json, Fmt::Yaml, Fmt::Junit]), extra }
+    // a third of the cases: 1-2 further test files for the primary rules file, sorting before and
+    // after `x_tests.json`, each all-good or with a mismatch, walked by name or by time
+    let mut more = vec![];
+    if u.chance(1, 3) {
+        let names = ["x_a", "x_z", "x_0", "x_zz"];
+        let start = u.below(names.len());
+        for i in 0..u.range(1, 2) {
+            more.push((names[(start + i) % names.len()].to_string(), if u.chance(1, 2) { "good" } else { "mismatch" }.to_string()));
+        }
+    }
+    let walk = if more.is_empty() { 0 } else { u.below(4) };
+    TCase { rules, rules_broken, spec, spec_kind, mismatch, dir_layout, fmt: *u.pick(&[Fmt::Single, Fmt::Json, Fmt::Yaml, Fmt::Junit]), extra, more, walk }
 }
 
 fn check_test(c: &TCase) -> Result<(String, i32), (String, String)> {
@@ -424,8 +441,22 @@ fn check_test(c: &TCase) -> Result<(String, i32), (String, String)> {
         };
         write_file(&d.join(format!("tests/{}_tests.yaml", stem)), spec);
     }
-    let o = TOpts { fmt: c.fmt, verbose: false, alphabetical: false, last_modified: false };
-    let r = if c.dir_layout { test_dir(&dir.to_string_lossy(), &o) } else { test_files(&rp.to_string_lossy(), &tp.to_string_lossy(), &o) };
+    let mut stamp = |p: &std::path::Path, k: u64| {
+        let t = std::time::SystemTime::UNIX_EPOCH + std::time::Duration::from_secs(1_600_000_000 + k * 1000);
+        let _ = std::fs::File::options().write(true).open(p).and_then(|f| f.set_modified(t));
+    };
+    for (k, (stem, kind)) in c.more.iter().enumerate() {
+        let (chk, inp) = if kind == "mismatch" { ("PASS", "{a: 2, b: x}") } else { ("PASS", "{a: 1, b: x}") };
+        let p = dir.join(format!("tests/{}_tests.yaml", stem));
+        write_file(&p, &format!("- name: more{}\n  input: {}\n  expectations:\n    rules:\n      chk: {}\n", k, inp, chk));
+        stamp(&p, 10 + k as u64);
+    }
+    if !c.more.is_empty() {
+        stamp(&tp, if c.walk == 3 { 1 } else { 50 });
+    }
+    let o = TOpts { fmt: c.fmt, verbose: false, alphabetical: c.walk == 1, last_modified: c.walk >= 2 };
+    let tdata = if c.more.is_empty() { tp.to_string_lossy().to_string() } else { dir.join("tests").to_string_lossy().to_string() };
+    let r = if c.dir_layout { test_dir(&dir.to_string_lossy(), &o) } else { test_files(&rp.to_string_lossy(), &tdata, &o) };
     if let Some(p) = &r.panic {
         return Err((format!("test: panic {}", p), format!("panic:{}", p.split(' ').next().unwrap_or(""))));
     }
@@ -437,7 +468,7 @@ fn check_test(c: &TCase) -> Result<(String, i32), (String, String)> {
         return Ok(("unspecified".to_string(), st));
     }
     let want = if all_parse {
-        if c.mismatch || c.extra.iter().any(|(_, k)| k == "mismatch") {
+        if c.mismatch || c.extra.iter().any(|(_, k)| k == "mismatch") || c.more.iter().any(|(_, k)| k == "mismatch") {
             "7"
         } else {
             "0"
@@ -452,7 +483,7 @@ fn check_test(c: &TCase) -> Result<(String, i32), (String, String)> {
     };
     if !ok {
         return Err((
-            format!("test ({}{:?}, rules broken={}, spec {}, mismatch={}, further guard files {:?}) exits {}, expected {} ; {}", if c.dir_layout { "--dir, " } else { "" }, c.fmt, c.rules_broken, c.spec_kind, c.mismatch, c.extra, st, want, r.brief()),
+            format!("test ({}{:?}, rules broken={}, spec {}, mismatch={}, further guard files {:?}, further test files {:?} walk {}) exits {}, expected {} ; {}", if c.dir_layout { "--dir, " } else { "" }, c.fmt, c.rules_broken, c.spec_kind, c.mismatch, c.extra, c.more, c.walk, st, want, r.brief()),
             format!("c06:test:{}:{}:{}", want, if c.rules_broken { "rules-broken".to_string() } else if blank { format!("rules-without-rules+spec-{}", c.spec_kind) } else { c.spec_kind.to_string() }, if c.dir_layout { "dir" } else { "file" }),
         ));
     }
@@ -461,7 +492,8 @@ fn check_test(c: &TCase) -> Result<(String, i32), (String, String)> {
 
 fn tcase_json(c: &TCase) -> J {
     json!({"kind": "test", "rules": c.rules, "rules_broken": c.rules_broken, "spec": c.spec, "spec_kind": c.spec_kind, "mismatch": c.mismatch, "dir_layout": c.dir_layout,
-           "fmt": c.fmt.flag(), "extra": c.extra.iter().map(|(a, b)| json!([a, b])).collect::<Vec<_>>()})
+           "fmt": c.fmt.flag(), "extra": c.extra.iter().map(|(a, b)| json!([a, b])).collect::<Vec<_>>(),
+           "more": c.more.iter().map(|(a, b)| json!([a, b])).collect::<Vec<_>>(), "walk": c.walk})
 }
 
 fn random_test(u: &mut Choices) -> CaseResult {
@@ -501,6 +533,8 @@ pub fn replay(case: &J) -> CaseResult {
             dir_layout: case["dir_layout"].as_bool().unwrap_or(false),
             fmt,
             extra: case["extra"].as_array().map(|a| a.iter().map(|e| (e[0].as_str().unwrap_or("").to_string(), e[1].as_str().unwrap_or("").to_string())).collect()).unwrap_or_default(),
+            more: case["more"].as_array().map(|a| a.iter().map(|e| (e[0].as_str().unwrap_or("").to_string(), e[1].as_str().unwrap_or("").to_string())).collect()).unwrap_or_default(),
+            walk: case["walk"].as_u64().unwrap_or(0) as usize,
         };
         return match check_test(&c) {
             Ok(_) => CaseResult::Pass(Info::default()),
